@@ -340,6 +340,17 @@ func c10(r *hx.Run) {
 		storeDown = false
 		fmu.Unlock()
 		_, persisted := ms.Peek(key)
+		if i%3 == 0 && !persisted {
+			// the store is back: nothing that was purged while it was down may turn up in it later
+			time.Sleep(1300 * time.Millisecond)
+			if rec, back := ms.Peek(key); back {
+				hc := cache.NewHTTPCache()
+				if hc.FromBytes(rec) == nil {
+					r.Violate("purged_record_written_back", nil, "a record of the key purged while the store was down appeared in the store after it came back", map[string]interface{}{"first": first.Brief(), "after_purge": third.Brief()}, map[string]interface{}{"uri": uri})
+				}
+			}
+			r.Add("stores_watched_after_coming_back", 1)
+		}
 		r.Eval(1)
 		r.Add("purges_while_the_store_is_down", 1)
 		cs := map[string]interface{}{"uri": uri}
